@@ -66,8 +66,9 @@ func ccSP() *saml2.SAMLServiceProvider {
 type ccMsg struct{ enc, entry, alone string }
 
 var (
-	ccOnce sync.Once
-	ccMsgs map[string][]ccMsg
+	ccOnce     sync.Once
+	ccMsgs     map[string][]ccMsg
+	ccBadAlone = map[string]string{}
 )
 
 func ccFingerprint(sp *saml2.SAMLServiceProvider, entry, enc string) string {
@@ -155,7 +156,8 @@ func ccInbound() map[string][]ccMsg {
 				}
 			}
 			if (op == "refusedDeflate") != (acc == 0) || (op != "refusedDeflate" && acc != ccK) {
-				orch.Fatal("concur: alone results of %s are not as intended (%d of %d accepted): %s", op, acc, ccK, ms[0].alone)
+				// genuine messages refused (or refusable ones accepted) even alone: every result of this operation is wrong
+				ccBadAlone[op] = fmt.Sprintf("alone results of %s are not as intended (%d of %d accepted): %s", op, acc, ccK, ms[0].alone)
 			}
 		}
 	})
@@ -288,6 +290,9 @@ func ccCall(sp *saml2.SAMLServiceProvider, op string, k, n int) (note string) {
 		ms := ccInbound()[op]
 		if ms == nil {
 			orch.Fatal("concur: unknown operation %q", op)
+		}
+		if bad, ok := ccBadAlone[op]; ok {
+			return bad
 		}
 		m := ms[k%len(ms)]
 		if got := ccFingerprint(sp, m.entry, m.enc); got != m.alone {
